@@ -569,6 +569,35 @@ Proof.
       clear -Hr0. induction Hr0; [constructor; intros []|eapply ureach_step; eauto; intros []].
 Qed.
 
+(* ------------------------------------------------------------------ the work-list always finishes *)
+Fixpoint sumsize (l : list nset) : nat := match l with [] => 0 | x :: r => nsize x + sumsize r end.
+
+Lemma sumsize_app a b : sumsize (a ++ b) = sumsize a + sumsize b.
+Proof. induction a as [|x r IH]; cbn; [reflexivity|]. rewrite IH. lia. Qed.
+
+Lemma sumsize_rev a : sumsize (rev a) = sumsize a.
+Proof. induction a as [|x r IH]; cbn; [reflexivity|]. rewrite sumsize_app, IH. cbn. lia. Qed.
+
+Lemma nsize_sumsize s : nsize s = S (sumsize (ns_imports s)).
+Proof.
+  destruct s as [i n l]. reflexivity.
+Qed.
+
+(* every iteration removes one unit of the total size of the trees on the work-list, visited or not *)
+Lemma imports_run_total key : forall fuel next visited acc,
+  sumsize next < fuel -> exists res, imports_run fuel key next visited acc = Some res.
+Proof.
+  induction fuel as [|f IH]; intros next visited acc H; [lia|]. cbn [imports_run].
+  destruct next as [|curr rest]; [eauto|]. cbn [sumsize] in H. pose proof (nsize_sumsize curr) as Hs.
+  destruct (mem (ns_id curr) visited).
+  - apply IH. lia.
+  - apply IH. rewrite sumsize_app, sumsize_rev. lia.
+Qed.
+
+Theorem show_imports_terminates key root :
+  exists res, imports_run (2 * nsize root + 2) key [root] [] [] = Some res.
+Proof. apply imports_run_total. cbn [sumsize]. lia. Qed.
+
 (* ------------------------------------------------------------------ what `wire show` prints for one top-level set *)
 Definition nset_fuel (s : nset) : nat := 2 * nsize s + 2.
 
